@@ -292,6 +292,9 @@ class Arm(Robot):
                     i = i + 1
                 if success:
                     self._end_effector_pos_global = goal_position
+        if not success:
+            # keep the reported tool pose in step with the stored (unconverged) joint vector
+            self.FK(theta, protect=True)
         return theta, success
 
     def constrainedIK(self, goal_position : tm, theta_init : 'np.ndarray[float]' = None,
